@@ -74,10 +74,21 @@ def registries():
     return st.one_of(st.just(NAMES[:3]), st.just(list(NAMES)), st.lists(st.sampled_from(NAMES), max_size=6, unique=True))
 
 
-def infer_field(strs, names):
+def infer_field(strs, names, shape="samples"):
+    """the strings at one position: one per sample, or all in one list / one mapping of one sample"""
     sreg = pl.make_sreg(names)
-    g = pl.MetadataGenerator(str_types_registry=sreg)
-    return g.generate(*[{"f": s} for s in strs])["f"]
+    if shape == "samples":
+        g = pl.MetadataGenerator(str_types_registry=sreg)
+        return g.generate(*[{"f": s} for s in strs])["f"]
+    if shape == "list":
+        g = pl.MetadataGenerator(str_types_registry=sreg)
+        t = g.generate({"f": list(strs)})["f"]
+    else:
+        g = pl.MetadataGenerator(str_types_registry=sreg, dict_keys_fields=["f"])
+        t = g.generate({"f": {"k%d" % i: s for i, s in enumerate(strs)}})["f"]
+    if not isinstance(t, (dt.DList, dt.DDict)):
+        raise oracle.MalformedIR(f"container expected, got {t}")
+    return t.type
 
 
 # --- detect -------------------------------------------------------------------------------------------
@@ -115,7 +126,9 @@ def check_resolve(case):
     det = {detect_indep(s, names) for s in strs} - {None}
     r.nontrivial = len(det) >= 2
     r.label("pseudo-kinds:%d" % len(det))
-    ok, t = owned(r, "resolve", infer_field, strs, names)
+    shape = case.get("shape", "samples")
+    r.label("shape:" + shape)
+    ok, t = owned(r, "resolve", infer_field, strs, names, shape)
     if not ok:
         return r
     try:
@@ -352,7 +365,8 @@ def detect_cases():
 
 
 def resolve_cases():
-    return st.fixed_dictionaries({"strings": st.lists(strings(), min_size=2, max_size=6), "sreg": registries()})
+    return st.fixed_dictionaries({"strings": st.lists(strings(), min_size=2, max_size=6), "sreg": registries(),
+                                  "shape": st.sampled_from(["samples", "samples", "list", "list", "dict"])})
 
 
 @st.composite
@@ -416,6 +430,8 @@ def valid(case):
         if "strings" in case and not (isinstance(case["strings"], list) and case["strings"] and all(isinstance(s, str) and "\x00" not in s for s in case["strings"])):
             return False
         if "datetime" in case and not isinstance(case["datetime"], bool):
+            return False
+        if case.get("shape", "samples") not in ("samples", "list", "dict"):
             return False
         if not isinstance(case.get("prior_datetime_run", False), bool):
             return False
